@@ -67,6 +67,9 @@ def mybits(obj, depth=0):
     return None
 
 
+_depth = [0]
+
+
 def mywidth(obj):
     import hdl21 as h
 
@@ -76,6 +79,19 @@ def mywidth(obj):
         of = obj.inst.of
         ports = getattr(of, "ports", {})
         p = ports.get(obj.portname)
+        if isinstance(p, h.Signal) and isinstance(obj.inst, h.InstanceArray):
+            # a reference into an array stands for the port's whole connection (one port-width if broadcast or unconnected, n of them otherwise)
+            conn = obj.inst.conns.get(obj.portname)
+            if conn is None or isinstance(conn, h.NoConn):
+                return p.width
+            if _depth[0] > 8:
+                return None
+            _depth[0] += 1
+            try:
+                b = mybits(conn)
+            finally:
+                _depth[0] -= 1
+            return None if b is None else len(b)
         return p.width if isinstance(p, h.Signal) else None
     if isinstance(obj, h.BundleRef):
         try:
